@@ -115,7 +115,7 @@ def run_case(case, rec):
             nm = type(e).__name__
             if nm in ('InfeasibleRegion', 'DomainError', 'NoEquilibrium'):
                 rec.refuse(f'{name}: {nm}'); return None
-            rec.exception(name.split(':')[0], e, what=f'{name} ({cls}, n={npos}) raised {nm}: {str(e)[:120]}'); return None
+            rec.exception(name.split(':')[0] + '/' + cls, e, what=f'{name} ({cls}, n={npos}) raised {nm}: {str(e)[:120]}'); return None
     Pb = call('bubble-residual:solve_Py', lambda: bp.solve_Py(z.copy(), T0))
     Tb = call('bubble-residual:solve_Ty', lambda: bp.solve_Ty(z.copy(), P0))
     Pd = call('dew-residual:solve_Px', lambda: dp.solve_Px(z.copy(), T0))
